@@ -39,15 +39,15 @@ CONSTANTS Parts,        \* partition names "topic/partition"
                         \* arguments of the k-th call are a pseudo-random function of a salt in 0..n
                         \* chosen initially, so that random walks mix calls, commits and Close evenly
           Emit,         \* record hist and print finished behaviours as JSON
-          Bug           \* "none"; "clear_always" (non-vacuity self-test of the invariants)
+          Bug           \* "none"; "clear_always", "remaining_last_topic" (non-vacuity self-tests of the invariants)
 
 VARIABLES pom, store, pc, todo, req, resp, cached, ops, commits, faults,
           closeSt, attempt, auto, retryMax,
           \* ghosts
-          marks, touched, lowSince, lowAfterSnap, reqLow, backOk, clearOk, finalsOk, init0, hist, salt
+          marks, touched, lowSince, lowAfterSnap, reqLow, backOk, clearOk, finalsOk, refusedF, init0, hist, salt
 
 vars == <<pom, store, pc, todo, req, resp, cached, ops, commits, faults, closeSt, attempt, auto,
-          retryMax, marks, touched, lowSince, lowAfterSnap, reqLow, backOk, clearOk, finalsOk, init0, hist, salt>>
+          retryMax, marks, touched, lowSince, lowAfterSnap, reqLow, backOk, clearOk, finalsOk, refusedF, init0, hist, salt>>
 
 Inf == MaxOff + 10
 Pos(o, m) == [off |-> o, meta |-> m]
@@ -71,7 +71,7 @@ Init ==
   /\ auto \in Autos /\ retryMax \in RetryMaxes
   /\ marks = [p \in Parts |-> {store[p]}] /\ touched = [p \in Parts |-> FALSE]
   /\ lowSince = [p \in Parts |-> Inf] /\ lowAfterSnap = [p \in Parts |-> Inf] /\ reqLow = [p \in Parts |-> Inf]
-  /\ backOk = TRUE /\ clearOk = TRUE /\ finalsOk = TRUE
+  /\ backOk = TRUE /\ clearOk = TRUE /\ finalsOk = TRUE /\ refusedF = [p \in Parts |-> 0]
   /\ init0 = store /\ hist = <<>>
 
 SetSeq(S) == LET RECURSIVE F(_) F(X) == IF X = {} THEN <<>> ELSE LET x == CHOOSE y \in X : TRUE IN <<x>> \o F(X \ {x}) IN F(S)
@@ -101,7 +101,7 @@ Mark(p, o, m) ==
      ELSE UNCHANGED <<pom, marks, touched>>
   /\ Step("mark", p, o, m, "none", <<>>)
   /\ UNCHANGED <<store, pc, todo, req, resp, cached, commits, faults, closeSt, attempt, auto, retryMax,
-                 lowSince, lowAfterSnap, reqLow, backOk, clearOk, finalsOk, init0, salt>>
+                 lowSince, lowAfterSnap, reqLow, backOk, clearOk, finalsOk, refusedF, init0, salt>>
 
 \* ResetOffset: downward (or equal) only
 Reset(p, o, m) ==
@@ -116,7 +116,7 @@ Reset(p, o, m) ==
      ELSE UNCHANGED <<pom, marks, touched, lowSince, lowAfterSnap>>
   /\ Step("resetoff", p, o, m, "none", <<>>)
   /\ UNCHANGED <<store, pc, todo, req, resp, cached, commits, faults, closeSt, attempt, auto, retryMax,
-                 reqLow, backOk, clearOk, finalsOk, init0, salt>>
+                 reqLow, backOk, clearOk, finalsOk, refusedF, init0, salt>>
 
 \* flushToBroker starts: Commit() while open, or one of the final attempts of Close()
 BuildStart ==
@@ -127,7 +127,7 @@ BuildStart ==
         /\ NoStep
   /\ pc' = "building" /\ todo' = Parts /\ req' = <<>>
   /\ UNCHANGED <<pom, store, resp, cached, ops, faults, closeSt, auto, retryMax, marks, touched,
-                 lowSince, lowAfterSnap, reqLow, backOk, clearOk, finalsOk, init0, salt>>
+                 lowSince, lowAfterSnap, reqLow, backOk, clearOk, finalsOk, refusedF, init0, salt>>
 
 \* constructRequest, one partition: snapshot under this partition's lock
 BuildOne(p) ==
@@ -138,7 +138,7 @@ BuildOne(p) ==
   /\ lowAfterSnap' = [lowAfterSnap EXCEPT ![p] = Inf]
   /\ NoStep
   /\ UNCHANGED <<pom, store, pc, resp, cached, ops, commits, faults, closeSt, attempt, auto, retryMax,
-                 marks, touched, lowSince, backOk, clearOk, finalsOk, init0, salt>>
+                 marks, touched, lowSince, backOk, clearOk, finalsOk, refusedF, init0, salt>>
 
 BuildEnd ==
   /\ pc = "building" /\ todo = {}
@@ -146,7 +146,7 @@ BuildEnd ==
                         ELSE pc' = "sent" /\ cached' = TRUE       \* coordinator(): lookup unless cached
   /\ NoStep
   /\ UNCHANGED <<pom, store, todo, req, resp, ops, commits, faults, closeSt, attempt, auto, retryMax,
-                 marks, touched, lowSince, lowAfterSnap, reqLow, backOk, clearOk, finalsOk, init0, salt>>
+                 marks, touched, lowSince, lowAfterSnap, reqLow, backOk, clearOk, finalsOk, refusedF, init0, salt>>
 
 \* effect of the coordinator storing the positions of the partitions in A
 StoreApply(A) ==
@@ -162,6 +162,7 @@ Coord ==
           /\ StoreApply({p \in DOMAIN req : ks[p] = "ok"})
           /\ resp' = ks /\ pc' = "resp" /\ todo' = DOMAIN req
           /\ finalsOk' = IF closeSt = "final" THEN finalsOk /\ nf = 0 ELSE finalsOk
+          /\ refusedF' = [p \in Parts |-> IF closeSt = "final" /\ p \in DOMAIN req /\ ks[p] # "ok" THEN refusedF[p] + 1 ELSE refusedF[p]]
           /\ Step("coord", "-", 0, "", "none", SetSeq({<<p, ks[p]>> : p \in DOMAIN req}))
           /\ UNCHANGED cached
      \/ \E applied \in BOOLEAN :     \* connection failure: CommitOffset returns an error
@@ -170,6 +171,7 @@ Coord ==
           /\ resp' = <<>> /\ pc' = "after" /\ UNCHANGED todo
           /\ cached' = FALSE                                     \* releaseCoordinator + broker.Close
           /\ finalsOk' = IF closeSt = "final" THEN FALSE ELSE finalsOk
+          /\ refusedF' = [p \in Parts |-> IF closeSt = "final" /\ p \in DOMAIN req /\ ~applied THEN refusedF[p] + 1 ELSE refusedF[p]]
           /\ Step("coord", "-", 0, "", IF applied THEN "after" ELSE "before", <<>>)
   /\ UNCHANGED <<pom, req, ops, commits, closeSt, attempt, auto, retryMax, marks, touched,
                  lowAfterSnap, reqLow, clearOk, init0, salt>>
@@ -185,24 +187,27 @@ HandleOne(p) ==
   /\ cached' = IF resp[p] \in {"redispatch", "unknown"} THEN FALSE ELSE cached
   /\ NoStep
   /\ UNCHANGED <<store, pc, req, resp, ops, commits, faults, closeSt, attempt, auto, retryMax, marks, touched,
-                 lowSince, lowAfterSnap, reqLow, backOk, finalsOk, init0, salt>>
+                 lowSince, lowAfterSnap, reqLow, backOk, finalsOk, refusedF, init0, salt>>
 
 HandleEnd ==
   /\ pc = "resp" /\ todo = {}
   /\ pc' = "after"
   /\ NoStep
   /\ UNCHANGED <<pom, store, todo, req, resp, cached, ops, commits, faults, closeSt, attempt, auto, retryMax,
-                 marks, touched, lowSince, lowAfterSnap, reqLow, backOk, clearOk, finalsOk, init0, salt>>
+                 marks, touched, lowSince, lowAfterSnap, reqLow, backOk, clearOk, finalsOk, refusedF, init0, salt>>
 
 \* after a flush: Commit() -> releasePOMs(false); in the final loop decide whether to go on
 After ==
   /\ pc = "after"
   /\ pc' = "idle"
-  /\ closeSt' = IF closeSt = "final" /\ ((\A p \in Parts : ~pom[p].dirty) \/ attempt > retryMax)
+  /\ closeSt' = IF closeSt = "final" /\ ((\A p \in Parts : ~pom[p].dirty) \/ attempt > retryMax
+                                       \* self-test variant: releasePOMs reports only the last topic it visited
+                                       \* (the bug cfg has one partition per topic)
+                                       \/ (Bug = "remaining_last_topic" /\ \E p \in Parts : ~pom[p].dirty))
                 THEN "closed" ELSE closeSt
   /\ NoStep
   /\ UNCHANGED <<pom, store, todo, req, resp, cached, ops, commits, faults, attempt, auto, retryMax,
-                 marks, touched, lowSince, lowAfterSnap, reqLow, backOk, clearOk, finalsOk, init0, salt>>
+                 marks, touched, lowSince, lowAfterSnap, reqLow, backOk, clearOk, finalsOk, refusedF, init0, salt>>
 
 \* Close(): close(closing); wait for mainLoop (no commit running); asyncClosePOMs;
 \* final attempts only with auto-commit
@@ -210,7 +215,7 @@ CloseBegin ==
   /\ closeSt = "open" /\ pc = "idle"
   /\ SimSalts > 0 => ops = MaxOps
   /\ closeSt' = IF auto THEN "final" ELSE "closed"
-  /\ attempt' = 0 /\ finalsOk' = TRUE
+  /\ attempt' = 0 /\ finalsOk' = TRUE /\ refusedF' = [p \in Parts |-> 0]
   /\ pom' = [p \in Parts |-> [pom[p] EXCEPT !.done = TRUE]]
   /\ Step("close", "-", 0, "", "none", <<>>)
   /\ UNCHANGED <<store, pc, todo, req, resp, cached, ops, commits, faults, auto, retryMax, marks, touched,
@@ -241,6 +246,10 @@ NextOffsetIsPendingOrInitial == \A p \in Parts : NextOffset(p, -1) \in marks[p]
 CleanMeansStored == \A p \in Parts : (touched[p] /\ ~pom[p].dirty) => store[p] = Cur(p)
 \* Close returned, auto-commit, final attempts accepted => store = latest mark
 ClosedAndAccepted == (closeSt = "closed" /\ auto /\ finalsOk) => \A p \in Parts : touched[p] => store[p] = Cur(p)
+\* ... and a mark is given up at Close only when the attempts were exhausted FOR THAT PARTITION: Retry.Max + 1
+\* final requests carried it and the coordinator refused it (or the connection failed before applying) each time
+ClosedOnlyAfterExhausted == (closeSt = "closed" /\ auto) =>
+                               \A p \in Parts : touched[p] => (store[p] = Cur(p) \/ refusedF[p] >= retryMax + 1)
 \* MarkOffset never lowers, ResetOffset never raises (action properties)
 MarkNeverLowers == [][\A p \in Parts, o \in 0..MaxOff, m \in Metas : Mark(p, o, m) => pom'[p].off >= pom[p].off]_vars
 ResetNeverRaises == [][\A p \in Parts, o \in 0..MaxOff, m \in Metas : Reset(p, o, m) => pom'[p].off <= pom[p].off]_vars
